@@ -25,6 +25,21 @@ HermiteUnits == 32
 TwinRoundingUnitsPerStep == 16
 TwinTolUnits == 100
 
+(* C07 "g(t_e, y_e) ~ 0" and "within tolerance level of a true root": the root finder locates t_e to a   *)
+(* few eps of unit-size quantities; gUnits is |g| in units of |s| eps max(1,|y|,|c|) max(1,|y'|) and      *)
+(* rootGap is |t_e - root| in units of eps max(1,|root|).                                                *)
+EventResidualUnits == 256
+EventRootGapUnits == 64
+(* for state events on problems with a rational exact solution the located root inherits the global     *)
+(* error of the integrator: |t_e - t_root| in units of tol / |y'(t_root)|                                   *)
+EventRootTolUnits == 100
+
+(* C06 "to within the error tolerance for Richardson-extrapolated wrappers": value at a recorded time in *)
+(* units of atol + rtol |y|; and the O(h^4) clause: mid-step error divided by                           *)
+(* (h^4 M4 / 384 + error at the two neighbouring grid points + slope error h/8), must stay below        *)
+DenseRichTolUnits == 100
+DenseMidQuotient == 8
+
 (* "modest multiple" of a tolerance (C15) and "modest constant" (C05)         *)
 ModestK == 10
 =============================================================================
